@@ -248,6 +248,16 @@ fn main() {
             }
         }
     }
+    // both ends of every row of the compiled address-block table, two addresses either side
+    for r in PATTERNS.registers.iter() {
+        for b in [r.start.as_deref(), r.end.as_deref()].into_iter().flatten() {
+            if let Ok(v) = u32::from_str_radix(b.trim_start_matches("0x").trim_start_matches("0X"), 16) {
+                for h in v.saturating_sub(2)..=(v + 2).min(DOMAIN - 1) {
+                    sample.push(h);
+                }
+            }
+        }
+    }
     let stride: u32 = if tier == "quick" { 64 } else { 16 };
     let n_random: usize = if tier == "quick" { 100_000 } else { 400_000 };
     sample.extend((0..DOMAIN).step_by(stride as usize));
